@@ -92,9 +92,10 @@ func newC19store() *c19store {
 }
 
 type c19alerts struct {
-	mu   sync.Mutex
-	msgs []string
-	srv  *httptest.Server
+	mu    sync.Mutex
+	msgs  []string
+	delay time.Duration // the alert service answers after this long
+	srv   *httptest.Server
 }
 
 func newC19alerts() *c19alerts {
@@ -103,7 +104,11 @@ func newC19alerts() *c19alerts {
 		buf, _ := ioutil.ReadAll(r.Body)
 		a.mu.Lock()
 		a.msgs = append(a.msgs, string(buf))
+		d := a.delay
 		a.mu.Unlock()
+		if d > 0 {
+			time.Sleep(d)
+		}
 		w.WriteHeader(200)
 	}))
 	return a
@@ -476,6 +481,100 @@ func RunC19(c *lib.Ctx) {
 		exec("monitor", mon, incF, monitorAlts, first, size, rb, i)
 	}
 
+	// ---------- back to back through the real BatchProcessor and SimpleTasksManager ----------
+	// two different batches reach an agent within one task-manager tick: each must be judged on its own
+	for _, kind := range []string{"auditor", "monitor"} {
+		for rep := 0; rep < c.Q(3, 12); rep++ {
+			id := fmt.Sprintf("%s-backtoback-%d", kind, rep)
+			if c.Only != "" && c.Only != id {
+				continue
+			}
+			a, an, err := mkAgent(kind + "-bb")
+			if err != nil {
+				continue
+			}
+			tm := gossip.NewSimpleTasksManager(200*time.Millisecond, 10)
+			a.Tasks = tm
+			tm.Start()
+			f := memF
+			if kind == "monitor" {
+				f = incF
+			}
+			bp := gossip.NewBatchProcessor(a, []gossip.TaskFactory{f}, nil)
+			a.In.Subscribe(gossip.BatchMessageType, bp, 255)
+			size := rb.Pick(1, 2, 4)
+			f1 := rb.Intn(total/2 - size)
+			f2 := total/2 + rb.Intn(total/2-size)
+			altered, honest := batchAt(f1, size), batchAt(f2, size)
+			altered.Snapshots[0].Snapshot.HistoryDigest = flipD(altered.Snapshots[0].Snapshot.HistoryDigest)
+			order := []*protocol.BatchSnapshots{altered, honest}
+			if rep%2 == 1 {
+				order = []*protocol.BatchSnapshots{honest, altered}
+			}
+			before := alerts.drain()
+			for _, b := range order {
+				payload, _ := b.Encode()
+				a.In.Publish(&gossip.Message{Kind: gossip.BatchMessageType, TTL: 0, Payload: payload})
+			}
+			// wait for both tasks: two ticks, then the notifier
+			time.Sleep(700 * time.Millisecond)
+			got := alerts.drain() - before
+			tm.Stop()
+			bp.Stop()
+			an.Stop()
+			c.Count("back_to_back_pairs_through_processor", 1)
+			cs := c19case{ID: id, Agent: kind, First: uint64(f1), Size: size, Alteration: "two batches within one tick: one with an altered history digest, one honest", Binding: true, Alerts: got}
+			if got == 0 {
+				c.Violation(fmt.Sprintf("C19:%s:back-to-back:no-alert", kind), fmt.Sprintf("%s: two different batches arrived within one task-manager tick (versions %d.. altered, %d.. honest); no alert was raised for the altered one", kind, f1, f2), cs)
+			} else if got > 1 {
+				c.Violation(fmt.Sprintf("C19:%s:back-to-back:false-alert", kind), fmt.Sprintf("%s: two batches within one tick, one altered: %d alerts were raised (the honest batch was alerted on too)", kind, got), cs)
+			}
+			c.Case(fmt.Sprintf("%s/back-to-back/size%d/order%d", kind, size, rep%2), true)
+		}
+	}
+	// ---------- a burst of failing verifications against a slow alert service ----------
+	if c.Only == "" || c.Only == "alert-burst" {
+		a, an0, err := mkAgent("auditor-burst")
+		if err == nil {
+			an0.Stop()
+			// the production notifier: queue of 10, 200 ms timeouts; the alert service answers after 100 ms
+			n := gossip.NewSimpleNotifier([]string{alerts.srv.URL}, 10, 200*time.Millisecond, 200*time.Millisecond, nil)
+			n.Start()
+			a.Notifier = n
+			alerts.mu.Lock()
+			alerts.delay = 100 * time.Millisecond
+			alerts.mu.Unlock()
+			before := alerts.drain()
+			nburst := c.Q(30, 60)
+			var wg sync.WaitGroup
+			for i := 0; i < nburst; i++ {
+				b := batchAt(rb.Intn(total-1), 1)
+				b.Snapshots[0].Snapshot.HistoryDigest = flipD(b.Snapshots[0].Snapshot.HistoryDigest)
+				wg.Add(1)
+				go func(b *protocol.BatchSnapshots) {
+					defer wg.Done()
+					run(a, memF, b) // every request of these tasks succeeds (the alteration is in the gossiped snapshot), so one client can be shared
+				}(b)
+			}
+			wg.Wait()
+			deadline := time.Now().Add(time.Duration(nburst)*150*time.Millisecond + 5*time.Second)
+			for time.Now().Before(deadline) && alerts.count()-before < nburst {
+				time.Sleep(50 * time.Millisecond)
+			}
+			got := alerts.count() - before
+			alerts.mu.Lock()
+			alerts.delay = 0
+			alerts.mu.Unlock()
+			n.Stop()
+			c.Count("alert_burst_alerts_expected", int64(nburst))
+			c.Count("alert_burst_alerts_received", int64(got))
+			if got < nburst {
+				c.Violation("C19:auditor:alert-burst:alerts-lost", fmt.Sprintf("%d failing verifications at once against an alert service answering in 100 ms: only %d alerts arrived", nburst, got), map[string]string{"id": "alert-burst"})
+			}
+			c.Case("auditor/alert-burst", true)
+		}
+	}
+
 	// ---------- publisher ----------
 	pub, pubN, err := mkAgent("publisher")
 	if err != nil {
@@ -566,6 +665,19 @@ func RunC19(c *lib.Ctx) {
 	tm.Start()
 	bp := gossip.NewBatchProcessor(pub, []gossip.TaskFactory{pubF}, nil)
 	pub.In.Subscribe(gossip.BatchMessageType, bp, 255)
+	// different batches back to back (within one tick)
+	for i := 0; i < c.Q(4, 20); i++ {
+		b1, b2 := batchAt(rp.Intn(total/2-4), 4), batchAt(total/2+rp.Intn(total/2-4), 4)
+		for _, b := range []*protocol.BatchSnapshots{b1, b2} {
+			for _, ss := range b.Snapshots {
+				expect[string(ss.Signature)] = true
+			}
+			payload, _ := b.Encode()
+			pub.In.Publish(&gossip.Message{Kind: gossip.BatchMessageType, TTL: 0, Payload: payload})
+		}
+		c.Count("publisher_back_to_back_pairs", 1)
+		time.Sleep(30 * time.Millisecond)
+	}
 	var wg sync.WaitGroup
 	for i := 0; i < c.Q(10, 80); i++ {
 		b := batchAt(rp.Intn(total-5), 5)
